@@ -1,6 +1,7 @@
 //! E1: virtual-transport simulator around the real `Connection` and `CipherStream`.
 mod alloc;
 mod sim;
+mod util;
 mod c01;
 mod c02;
 mod c03;
